@@ -18,7 +18,10 @@ LEVEL_TEXT = ("TLC runs the character-level scanner of Quote.tla over ALL input 
               "Families beyond the small universe (recorded and validated by TLC on the same spec): input sizes n-1, n, n+1 for n = 8..4096, "
               "delimiter sets of 7..257 characters, every byte value 1..255 in every syntactic position, words/join on long inputs; every "
               "split / word-utility call is repeated after an adversarial prelude on the same buffer (different content, errno preset) and must "
-              "return the fresh result.")
+              "return the fresh result. "
+              "Every case is executed at each run-time debug level of the specification's DebugLevels (0, 1, 3, 5) with identical results required; "
+              "long COUNTS (n-1, n, n+1 tokens / words around 2^8 and 2^16) are specified by the repeat laws of Quote.tla and executed on repeated blocks; "
+              "huge word indices (2^31 .. ULONG_MAX) must find no word.")
 LEVEL_NOTE = ("Exhaustive only up to the length bound and over that 7-character alphabet / those 3 delimiter sets; beyond it a few dozen "
               "long random strings. Delimiter sets containing a quote or backslash, and the empty delimiter string, are outside the "
               "universe. get_word/get_pword are claimed for indices 1..num_words only (0 and num_words+1.. are run for memory safety). "
@@ -270,15 +273,22 @@ def count_sweep(ctx, exe):
                                 {"d": [], "s": quoted, "k": k, "family": "count-sweep", "tokens": 2 * k, "idx": [i for i in widx if i <= 2 * k], "env": {"VH_WATCHDOG": "600"}}))
     env = dict(ENV)
     lv = [int(x) for x in ENV.get("VH_LEVELS", "0").split(",")]
-    if ctx.tier == "quick":
-        lv = lv[:2]             # each of these calls takes seconds under ASan: level 0 and the first further level in quick, all in thorough
     env.update({"VH_LEVELS": ",".join(map(str, lv)), "VH_WATCHDOG": "600", "ASAN_OPTIONS": ASAN_OPTS + ":quarantine_size_mb=4"})
     got = {}
 
     def ckey(c, at, f):
         return "long-input[count-sweep] %s d=%s tokens%s %s" % (c.steps[at][0], dclass(c.meta["d"]),
                                                                  ">=65536" if c.meta["tokens"] >= 65536 else "<65536", x_c12.fail_class(f))
-    x_c12.run_cases(ctx, exe, [], cases, ckey, "count_sweep", env=env, recorder=lambda c, at, ret: got.__setitem__(c.sid, untok(ret)))
+    rec = lambda c, at, ret: got.__setitem__(c.sid, untok(ret))
+    if ctx.tier == "quick":
+        # the 2^16 cases take seconds per call under ASan: level 0 only in quick (all levels in thorough); small counts at all levels
+        big = [c for c in cases if c.meta["tokens"] >= 60000]
+        small = [c for c in cases if c.meta["tokens"] < 60000]
+        x_c12.run_cases(ctx, exe, [], small, ckey, "count_sweep_small", env=dict(env, VH_LEVELS=ENV.get("VH_LEVELS", "0")), recorder=rec)
+        x_c12.run_cases(ctx, exe, [], big, ckey, "count_sweep", env=dict(env, VH_LEVELS="0"), recorder=rec)
+        lv = [0]
+    else:
+        x_c12.run_cases(ctx, exe, [], cases, ckey, "count_sweep", env=env, recorder=rec)
     events, index = [], []
     for c in cases:
         if c.sid not in got:
@@ -294,7 +304,7 @@ def count_sweep(ctx, exe):
             e["idx"] = c.meta["idx"]
         events.append(e)
         index.append((c, 0, "count-sweep"))
-    ctx.cov["count_sweep"] = {"cases": len(cases), "max_tokens": max(c.meta["tokens"] for c in cases), "debug_levels": lv,
+    ctx.cov["count_sweep"] = {"cases": len(cases), "max_tokens": max(c.meta["tokens"] for c in cases), "debug_levels_of_the_2^16_cases": lv,
                               "counts": sorted({c.meta["tokens"] for c in cases})}
     return events, index
 
